@@ -76,6 +76,8 @@ func equalp(x, y slip.Object) bool {
 		return true
 	}
 	switch tx := x.(type) {
+	case nil:
+		// nil is only equalp to nil which eq already decided.
 	case slip.Character:
 		if c, ok := y.(slip.Character); ok && (c == tx || unicode.ToLower(rune(c)) == unicode.ToLower(rune(tx))) {
 			return true
